@@ -83,6 +83,10 @@ func goType(t TypeInfo) (reflect.Type, error) {
 		if err != nil {
 			return nil, err
 		}
+		if !keyType.Comparable() {
+			// e.g. map<blob, int>: []byte cannot be the key of a Go map
+			return nil, fmt.Errorf("cannot create Go type for CQL type %s: Go type %s of the keys is not comparable", t, keyType)
+		}
 		return reflect.MapOf(keyType, valueType), nil
 	case TypeVarint:
 		return reflect.TypeOf(*new(*big.Int)), nil
